@@ -185,6 +185,75 @@ def resolve_after_none(seed):
     return {'template': template, 'seed': seed, 'scenario': 'none-after-success'}, fails
 
 
+def resolve_replaced(seed):
+    """an initial condition, an LMI and a metric are REPLACED between two solves; a constraint attached to the function stays. Afterwards nothing of the
+    earlier solve is readable: the replaced objects behave as in a freshly built model that never contained them (ValueError), the kept ones carry the
+    multipliers of the latest solve; then a solve without value leaves no dual of the earlier solve on the function-level constraint either"""
+    import random
+    from PEPit import PEP, Expression
+    from PEPit.functions import SmoothStronglyConvexFunction
+    rnd = random.Random(seed)
+    mu, L = rnd.choice([.1, .2, .3]), rnd.choice([1., 2.])
+    r1, r2 = rnd.choice([1., 2.]), rnd.choice([4., 9.])
+    fails = []
+
+    def build(radius2, lmi_diag):
+        p = PEP()
+        f = p.declare_function(SmoothStronglyConvexFunction, mu=mu, L=L)
+        xs, x0 = f.stationary_point(), p.set_initial_point()
+        g0 = f.gradient(x0)
+        x1 = x0 - g0 / L
+        cond = ((x0 - xs) ** 2 <= radius2)
+        p.set_initial_condition(cond)
+        fc = (g0 ** 2 <= 10 * L * L * max(r1, r2))          # not binding
+        f.add_constraint(fc)
+        s = Expression()
+        lmi = p.add_psd_matrix([[lmi_diag, s], [s, lmi_diag]])
+        p.set_performance_metric((x1 - xs) ** 2)
+        return p, f, xs, x0, x1, cond, fc, lmi
+
+    def dual(o):
+        try:
+            return o.eval_dual()
+        except ValueError:
+            return None
+
+    p, f, xs, x0, x1, old_cond, fc, old_lmi = build(r1, 1.)
+    t1 = solve(p)
+    old_cond.eval_dual(), old_lmi.eval_dual(), fc.eval_dual()           # the user reads them after the first solve
+    new_cond = ((x0 - xs) ** 2 <= r2)
+    p.list_of_constraints = [new_cond]
+    p.list_of_psd = []
+    s2 = Expression()
+    new_lmi = p.add_psd_matrix([[2., s2], [s2, 2.]])
+    t2 = solve(p)
+    pf, ff, _, _, _, cond_f, fc_f, lmi_f = build(r2, 2.)
+    tf = solve(pf)
+    info = {'scenario': 'resolve-replaced', 'seed': seed, 'mu': mu, 'L': L, 'radii': (r1, r2), 'taus': (t1, t2, tf)}
+    if t2 is None or tf is None or abs(t2 - tf) > 50 * tol(tf):
+        fails.append(('C13', 'like_fresh', 'after replacing the initial condition and the LMI the re-solve returns %r, a newly built equivalent model %r' % (t2, tf)))
+        return info, fails
+    for what, got, want in (('new initial condition', new_cond.eval_dual(), cond_f.eval_dual()), ('function-level constraint', fc.eval_dual(), fc_f.eval_dual())):
+        if abs(got - want) > 2e-3 * (1 + abs(want)):
+            fails.append(('C13', 'latest_duals', 'multiplier of the %s after the re-solve: %.6g, in a newly built equivalent model: %.6g' % (what, got, want)))
+    for what, o in (('replaced initial condition', old_cond), ('replaced LMI', old_lmi)):
+        v = dual(o)
+        if v is not None:
+            fails.append(('C13', 'stale_dual.replaced', 'the %s is not part of the latest problem and still reports a dual value of the earlier solve (%s); in a newly built '
+                          'model that never contained it this is a ValueError' % (what, np.round(v, 6).tolist())))
+    # then a solve that finds no value
+    p.add_constraint((x1 - xs) ** 2 <= -1)
+    t3 = solve(p)
+    if t3 is not None:
+        fails.append(('C13', 'none_after_edit', 'an infeasible re-solve returned %r' % (t3,)))
+    else:
+        for what, o in (('function-level constraint', fc), ('initial condition', new_cond), ('LMI', new_lmi), ('replaced initial condition', old_cond)):
+            v = dual(o)
+            if v is not None:
+                fails.append(('C13', 'stale_dual.after_none', 'the %s still reports a dual value of the earlier solve after a solve that found no value' % what))
+    return info, fails
+
+
 # ------------------------------------------------------------------------------------------------ C14
 def dimension_reduction(name, seed, heuristic, tol_dr=1e-4, eig_reg=None):
     fails = []
@@ -219,6 +288,41 @@ def dimension_reduction(name, seed, heuristic, tol_dr=1e-4, eig_reg=None):
         fails[:] = [('C14',) + f[1:] if f[0] == 'C02' else f for f in fails]
         if heuristic == 'trace' and float(np.trace(pep.G_value)) > tr0 + 100 * tol(t0) * (1 + abs(tr0)):
             fails.append(('C14', 'trace', 'trace of the Gram matrix %.6g after the trace heuristic, %.6g before' % (np.trace(pep.G_value), tr0)))
+    finally:
+        spy.remove()
+    return info, fails
+
+
+def dimension_reduction_fallback(name, seed, heuristic, tol_dr, eig_reg):
+    """the requested back-end is not installed: solve announces that it switches to cvxpy, so the heuristic must run exactly as with wrapper='cvxpy' and
+    the same options - the stated tolerance anchors the objective, the stated regularisation enters the weights"""
+    import importlib.util
+    info = {'template': name, 'seed': seed, 'heuristic': heuristic, 'tol': tol_dr, 'eig_regularization': eig_reg, 'scenario': 'fall-back path'}
+    if importlib.util.find_spec('mosek') is not None:
+        return dict(info, skipped='mosek is installed: no fall-back path'), []
+    fails = []
+    spy = Spy().install()
+    try:
+        runs = []
+        for wname in ('cvxpy', 'mosek'):
+            pep, h = models.build(name, seed)
+            with quiet():
+                t = pep.solve(wrapper=wname, verbose=0, solver='CLARABEL', dimension_reduction_heuristic=heuristic, tol_dimension_reduction=tol_dr, eig_regularization=eig_reg)
+            w = spy.wrappers[-1]
+            runs.append((t, pep.objective.eval(), np.array(pep.G_value), list(getattr(w, 'heuristic_calls', []))))
+        (t_a, obj_a, G_a, calls_a), (t_b, obj_b, G_b, calls_b) = runs
+        info['taus'] = (t_a, t_b)
+        for label, calls in (('direct', calls_a), ('fall-back', calls_b)):
+            tols = [c[2] for c in calls if c[0] == 'prepare']
+            if tols != [tol_dr]:
+                fails.append(('C14', 'stated_tolerance', '%s path: the objective is anchored with tolerance(s) %r, the stated tolerance is %r' % (label, tols, tol_dr)))
+        wa, wb = [c[1] for c in calls_a if c[0] == 'weight'], [c[1] for c in calls_b if c[0] == 'weight']
+        if len(wa) != len(wb) or any(x.shape != y.shape or np.max(np.abs(x - y), initial=0) > 1e-6 * (1 + np.max(np.abs(x), initial=0)) for x, y in zip(wa, wb)):
+            fails.append(('C14', 'fallback_same_weights', 'the heuristic weights on the fall-back path differ from those of wrapper=cvxpy with the same options (%d vs %d reweighted solves)' % (len(wb), len(wa))))
+        if abs(t_a - t_b) > 1e-7 * (1 + abs(t_a)):
+            fails.append(('C14', 'dual_unchanged', 'dual bound %.10g with wrapper=cvxpy, %.10g on the fall-back path' % (t_a, t_b)))
+        if abs(obj_a - obj_b) > 1e-7 * (1 + abs(obj_a)):
+            fails.append(('C14', 'primal_within_tolerance', 'objective after the heuristic %.10g with wrapper=cvxpy, %.10g on the fall-back path with the same options' % (obj_a, obj_b)))
     finally:
         spy.remove()
     return info, fails
@@ -343,6 +447,15 @@ def invalid_options(seed):
             pass
         except Exception as e:
             fails.append(('C16', 'invalid_option.exception', 'invalid option %r raised %s, not ValueError' % (kw, type(e).__name__)))
+    # a solver name that names no solver is an invalid option value: an error (whatever its type - cvxpy raises its own), never a number
+    for bad in ('NOT_A_SOLVER', 'SCS2', '', 'scs '):
+        pep, h = models.build('T_gd_ssc', seed)
+        try:
+            with quiet():
+                t = pep.solve(wrapper='cvxpy', verbose=0, solver=bad)
+            fails.append(('C16', 'invalid_option.solver', 'solver=%r names no solver and is accepted: solve returned %r' % (bad, t)))
+        except Exception:       # noqa
+            pass
     # a back-end that is not installed falls back to cvxpy: the options must be treated as on the direct path
     import importlib.util
     if importlib.util.find_spec('mosek') is None:
